@@ -696,6 +696,33 @@ mod c05 {
         // extra index forms: element assignment `xs[i] = 5` (list_get_mut) and dict read `d[k]` (dict_get)
         if let Some(kind) = v["index_kind"].as_str() {
             let idx = bound_src(v["start"].as_str().unwrap_or("var"), "st").unwrap_or("st".to_string());
+            if kind == "object" {
+                // the indexed / sliced object is a field or a call result (its type is known to the checker only): the read must
+                // still go through the helper for the object's type, with the object first and the written index / bound after it
+                let objs = [("b.xs", false), ("b.name", true), ("mk()", false), ("word()", true)];
+                let (obj, is_str) = objs[v["obj"].as_u64().unwrap_or(0) as usize % 4];
+                let slice = v["slice"].as_bool().unwrap_or(false);
+                let src = format!("model Bag:\n    xs: List[int]\n    name: str\n\ndef mk() -> List[int]:\n    return [1, 2, 3]\n\ndef word() -> str:\n    return \"hello\"\n\ndef f(b: Bag, st: int) -> None:\n    r = {}[{}]\n\ndef main() -> None:\n    pass\n", obj, if slice { "st:" } else { "st" });
+                let helper = match (is_str, slice) { (true, false) => "incan_stdlib::strings::str_index", (false, false) => "incan_stdlib::collections::list_get",
+                                                     (true, true) => "incan_stdlib::strings::str_slice", (false, true) => "incan_stdlib::collections::list_slice" };
+                let got = guarded(|| {
+                    let tokens = incan::frontend::lexer::lex(&src).map_err(|e| format!("lex: {:?}", e.first().map(|x| x.message.clone())))?;
+                    let prog = incan::frontend::parser::parse(&tokens).map_err(|e| format!("parse: {:?}", e.first().map(|x| x.message.clone())))?;
+                    incan::IrCodegen::new().try_generate(&prog).map_err(|e| format!("codegen: {}", e))
+                });
+                let echo = { let mut a = v.clone(); a["source"] = json!(src); a };
+                return match &got {
+                    Ok(Ok(code)) => {
+                        let flat: String = code.split_whitespace().collect::<Vec<_>>().join(" ").replace(" :: ", "::");
+                        let args = call_args(&flat, helper).map(|a| a.iter().map(|x| norm(x)).collect::<Vec<_>>());
+                        let ok = matches!(&args, Some(a) if a.len() >= 2 && a[0].contains(&norm(obj)) && a[1].contains("st"));
+                        verdict(ok, json!({"helper_call_args": args}), json!({"helper": helper, "args": [obj, "st", ".."]}), &echo,
+                                "an index / slice read of a field or call result goes through the runtime helper for its type (never raw Rust indexing)")
+                    }
+                    Ok(Err(m)) => verdict(false, json!({"front_end_error": m}), json!({"helper": helper}), &echo, "an index form must compile"),
+                    Err(m) => verdict(false, json!({"panicked": m}), json!({"helper": helper}), &echo, "front end must not panic"),
+                };
+            }
             if kind == "nested" || kind == "dict_compound" {
                 // `grid[r][c]`: BOTH levels go through list_get; `d[k] -= 1`: the old value is read through dict_get (KeyError for a missing key)
                 let stmt = if kind == "nested" { "    g = grid[r][c]\n" } else { "    counts[k] -= 1\n" };
@@ -1131,7 +1158,9 @@ fn search(oracle: &str, seed: u64, budget: u64, skip: &[String]) -> Value {
                 // plus 4 element-assignment forms, 1 dict read, 1 nested index and 1 dict compound assignment = 271
                 let kinds = ["none", "var", "zero", "neg"];
                 let steps = ["none", "var", "neg", "two"];
-                let k0 = n % 271;
+                let k0 = n % 279;
+                // ... plus 8 reads whose object is a field or a call result (4 objects x index / slice) = 279
+                if k0 >= 271 { break 'g json!({"index_kind": "object", "obj": (k0 - 271) % 4, "slice": (k0 - 271) / 4 == 1}); }
                 if k0 == 269 { break 'g json!({"index_kind": "nested"}); }
                 if k0 == 270 { break 'g json!({"index_kind": "dict_compound"}); }
                 if k0 >= 264 {
